@@ -147,6 +147,12 @@ def fam_split_recording(ctx, rng):
     info = dict(fs=fs, n=n, window_length=L, ratio=L / dt, length_class=cls)
     ctx.describe(**info)
     rec = gen.make_recording(comps[0], comps[1], comps[2], dt, degrees_from_north=30.0, meta={"tag": 1})
+    # the record may have been detrended as a whole before it is cut (its windows are then detrended again, each by itself)
+    pre = str(rng.choice(["none", "none", "linear", "constant"]))
+    if pre != "none":
+        rec.detrend(type=pre)
+        comps = [np.array(rec.ns.amplitude), np.array(rec.ew.amplitude), np.array(rec.vt.amplitude)]
+    info["detrended_before_split"] = pre
     try:
         wins = rec.split(L)
         err = None
@@ -163,6 +169,19 @@ def fam_split_recording(ctx, rng):
                   "components of a window differ in length / orientation not carried over", **info)
         if len(wins) >= 2:
             ctx.nontrivial(["rec", fs, n, round(L, 9)])
+        if rng.random() < 0.6:
+            # ... "and only then detrending each window separately": the windows detrended one by one through the public
+            # method, whatever was done to the whole record before
+            ty = pre if (pre != "none" and rng.random() < 0.7) else str(rng.choice(["linear", "constant"]))
+            worst = 0.0
+            for w in wins[:40]:
+                refs = {c: detrend(np.array(getattr(w, c).amplitude, dtype=float), type=ty) for c in ("ns", "ew", "vt")}
+                scale = max(float(np.max(np.abs(getattr(w, c).amplitude))) for c in ("ns", "ew", "vt")) + 1e-300
+                w.detrend(type=ty)
+                for c in ("ns", "ew", "vt"):
+                    worst = max(worst, float(np.max(np.abs(np.asarray(getattr(w, c).amplitude) - refs[c]))) / scale)
+            ctx.check(worst <= 1e-9, "windows-detrended-separately", f"a window detrended by itself ({ty}) after the split does not "
+                      "equal its separately detrended samples", worst_relative_deviation=worst, detrend_type=ty, **info)
     elif ks[0]:
         ctx.nontrivial(["rec-refused", fs, n, round(L, 9)])
 
